@@ -109,6 +109,31 @@ func c11Build(x *mc.Exec, malformed bool) (*c11Tree, string) {
 			b := t.all[ob-1]
 			b.SizeDelta = c11Deltas[x.All("overstatement", len(c11Deltas))]
 			what = fmt.Sprintf("%s size %+d", b.Type, b.SizeDelta)
+			// cooperating second site: the enclosing box(es) overstate as well, so that the
+			// nearest ancestor still "has room" and only an outer one does not
+			par := map[*gen.Box]*gen.Box{}
+			gen.Walk(top, func(p *gen.Box, d int) {
+				for _, c := range p.Children {
+					par[c] = p
+				}
+			})
+			if p := par[b]; p != nil && par[p] != nil { // the top-level box itself stays honest
+				switch x.All("co-overstated-ancestors", 4) {
+				case 1:
+					p.SizeDelta = b.SizeDelta
+					what += fmt.Sprintf(", parent %s %+d", p.Type, p.SizeDelta)
+				case 2:
+					p.SizeDelta = b.SizeDelta + 64
+					what += fmt.Sprintf(", parent %s %+d", p.Type, p.SizeDelta)
+				case 3:
+					p.SizeDelta = b.SizeDelta
+					what += fmt.Sprintf(", parent %s %+d", p.Type, p.SizeDelta)
+					if g := par[p]; par[g] != nil {
+						g.SizeDelta = b.SizeDelta
+						what += fmt.Sprintf(", grandparent %s %+d", g.Type, g.SizeDelta)
+					}
+				}
+			}
 		}
 	}
 	t.doc = gen.EncodeBoxes(top)
@@ -418,7 +443,7 @@ func init() {
 				{Name: "well-formed-trees", H: c11Harness(false), Bound: b, Isolate: true,
 					Rule: "canonical CR3 box tree (ftyp, moov{uuid-meta{CNCV,CCTP{CCDT,CCDT},CTBO,free,CMT1-4,THMB},mvhd,trak{tkhd,mdia{mdhd,hdlr}}}, uuid-xpacket, uuid-preview{PRVW}, mdat); deviations: xpacket/preview size menus, skeleton variants (free / unknown top-level box, unknown children, 64-bit uuid sizes), an unknown box inserted at 7 places x 3 sizes, a trailing 8/16-byte box, any one box in 64-bit size form; x both byte orders x 5 Exif / 3 XMP / 3 preview callback behaviours"},
 				{Name: "overstated-children", H: c11Harness(true), Bound: b, Isolate: true,
-					Rule: "the same trees with any one box declaring a size off by {+1,+8,-1,-8,+64Ki,+2^31-1,+2^31,+2^32-1,+2^40}: no callback and no call may leave the stream beyond the end of the box being handled or of the enclosing top-level box; trivial = no overstatement"},
+					Rule: "the same trees with any one box declaring a size off by {+1,+8,-1,-8,+64Ki,+2^31-1,+2^31,+2^32-1,+2^40}, optionally together with its parent (same amount or 64 more) or parent and grandparent (cooperating sites; the top-level box stays honest): no callback and no call may leave the stream beyond the end of the box being handled or of the enclosing top-level box; trivial = no overstatement"},
 			}
 		},
 		Assumptions: []string{
